@@ -7,6 +7,8 @@ import Proofs.C14Map
 
   * `compile_eq`: `compile raw s = if Accepted raw then .ok ⟨cfgOf raw, fmtOf raw s⟩ else .error ()`, hence
     `compile_ok_iff`, `compile_accepts_iff`, `compile_rejects_iff`; `accepted_iff` spells `Accepted` out.
+  * `lastPerKey` (the element statements left in the Go map: the last one per key), `mem_lastPerKey_iff`,
+    `lastPerKey_of_distinct`, `lookupNetflow_lastPerKey`, `lookup_compiled`.
   * `compile_netflow_entries`: keys, offsets, lengths, encap flags pass through unchanged and in order; the
     destination is `destOf` (`destOf_declared`, `destOf_declared_type`, `destOf_column`, `destOf_other`, `destOf_little`).
   * `compile_formatter` with `reMapOf_lookup`, `reMapOf_isSome_iff`, `renderOf_lookup(_accepted)`, `renderKey_eq`,
@@ -101,14 +103,16 @@ def destOK (raw : RawConfig) (dest : String) : Bool :=
 
 def fieldOK (raw : RawConfig) (f : String) : Bool := ((reMapOf raw).lookup f).isSome || ((renderOf raw).lookup f).isSome
 
-/-- the mapping files the loader accepts -/
+/-- the mapping files the loader accepts. Of the element statements only those left in the Go map
+    (`lastPerKey`: the last statement per (penprovided, pen, field) key) have their destination checked;
+    every layer statement has -/
 def Accepted (raw : RawConfig) : Prop :=
   (∀ p ∈ raw.ports, portOK p = true) ∧
   (∀ k ∈ raw.key, ((reMapOf raw).lookup k).isSome = true) ∧
   (∀ kv ∈ raw.render, (rendererFunc kv.2).isSome = true) ∧
   (∀ f ∈ raw.fields, fieldOK raw f = true) ∧
-  (∀ m ∈ raw.ipfix, destOK raw m.destination = true) ∧
-  (∀ m ∈ raw.v9, destOK raw m.destination = true) ∧
+  (∀ m ∈ lastPerKey raw.ipfix, destOK raw m.destination = true) ∧
+  (∀ m ∈ lastPerKey raw.v9, destOK raw m.destination = true) ∧
   (∀ m ∈ raw.layers, destOK raw m.destination = true)
 
 instance (raw : RawConfig) : Decidable (Accepted raw) := by unfold Accepted; infer_instance
@@ -128,8 +132,8 @@ def fmtOf (raw : RawConfig) (isSlice0 : List (String × Bool)) : Fmt :=
    numToPbOf raw, isSliceOf raw isSlice0⟩
 
 def cfgOf (raw : RawConfig) : Config :=
-  { ipfix := raw.ipfix.map fun m => ⟨m.penProvided, m.pen, m.type, destOf raw m⟩,
-    v9 := raw.v9.map fun m => ⟨m.penProvided, m.pen, m.type, destOf raw m⟩,
+  { ipfix := (lastPerKey raw.ipfix).map fun m => ⟨m.penProvided, m.pen, m.type, destOf raw m⟩,
+    v9 := (lastPerKey raw.v9).map fun m => ⟨m.penProvided, m.pen, m.type, destOf raw m⟩,
     layers := raw.layers.map fun m => ⟨m.layer, m.encap, m.offset, m.length, destOf raw m⟩,
     ports := portsOf raw, present := true }
 
@@ -285,8 +289,8 @@ theorem compile_eq (raw : RawConfig) (isSlice0 : List (String × Bool)) :
     cases (reMapOf raw).lookup a <;>
       cases List.lookup a (List.foldl (fun acc kv => assocSet acc (renderKey (reMapOf raw) kv.fst) ((rendererFunc kv.snd).getD ""))
                 Generated.defaultRenderers raw.render) <;> rfl)]
-  have hacc : Accepted raw ↔ (raw.fields.all (fieldOK raw) = true ∧ (raw.ipfix.all fun m => destOK raw m.destination) = true ∧
-      (raw.v9.all fun m => destOK raw m.destination) = true ∧ (raw.layers.all fun m => destOK raw m.destination) = true) := by
+  have hacc : Accepted raw ↔ (raw.fields.all (fieldOK raw) = true ∧ ((lastPerKey raw.ipfix).all fun m => destOK raw m.destination) = true ∧
+      ((lastPerKey raw.v9).all fun m => destOK raw m.destination) = true ∧ (raw.layers.all fun m => destOK raw m.destination) = true) := by
     unfold Accepted
     simp only [List.all_eq_true] at h1 h2 h3 ⊢
     exact ⟨fun h => h.2.2.2, fun h => ⟨h1, h2, h3, h⟩⟩
@@ -294,8 +298,8 @@ theorem compile_eq (raw : RawConfig) (isSlice0 : List (String × Bool)) :
   cases hfe : raw.fields.isEmpty
   · simp only [Bool.false_eq_true, if_false]
     by_cases hf : raw.fields.all (fieldOK raw) = true <;>
-    by_cases h5 : (raw.ipfix.all fun m => destOK raw m.destination) = true <;>
-    by_cases h6 : (raw.v9.all fun m => destOK raw m.destination) = true <;>
+    by_cases h5 : ((lastPerKey raw.ipfix).all fun m => destOK raw m.destination) = true <;>
+    by_cases h6 : ((lastPerKey raw.v9).all fun m => destOK raw m.destination) = true <;>
     by_cases h7 : (raw.layers.all fun m => destOK raw m.destination) = true <;>
     simp only [hf, h5, h6, h7, if_true, if_false, ok_bind, error_bind, pure_bind', and_self, and_true, and_false, false_and] <;>
     first
@@ -305,8 +309,8 @@ theorem compile_eq (raw : RawConfig) (isSlice0 : List (String × Bool)) :
       have : raw.fields = [] := by simpa using hfe
       rw [this]; rfl
     simp only [if_true]
-    by_cases h5 : (raw.ipfix.all fun m => destOK raw m.destination) = true <;>
-    by_cases h6 : (raw.v9.all fun m => destOK raw m.destination) = true <;>
+    by_cases h5 : ((lastPerKey raw.ipfix).all fun m => destOK raw m.destination) = true <;>
+    by_cases h6 : ((lastPerKey raw.v9).all fun m => destOK raw m.destination) = true <;>
     by_cases h7 : (raw.layers.all fun m => destOK raw m.destination) = true <;>
     simp only [hf, h5, h6, h7, if_true, if_false, ok_bind, error_bind, pure_bind', and_self, and_true, and_false, false_and] <;>
     first
@@ -351,11 +355,13 @@ theorem compile_accepts_indep (raw : RawConfig) (s s' : List (String × Bool)) :
   rw [compile_accepts_iff, compile_accepts_iff]
 
 /-- **the element and layer statements pass through the compilation unchanged and in file order**: the key
-    (penProvided, pen, type) resp. (layer, encap, offset, length) as written, the destination as `destOf` says -/
+    (penProvided, pen, type) resp. (layer, encap, offset, length) as written, the destination as `destOf` says.
+    Of several element statements with the same key only the last one is kept (`lastPerKey`, the Go map);
+    `lookupNetflow_lastPerKey` / `lookup_compiled`: every lookup answers as on the complete list. -/
 theorem compile_netflow_entries (raw : RawConfig) (isSlice0 : List (String × Bool)) (c : Compiled)
     (h : compile raw isSlice0 = .ok c) :
-    c.cfg.ipfix = raw.ipfix.map (fun m => ⟨m.penProvided, m.pen, m.type, destOf raw m⟩) ∧
-    c.cfg.v9 = raw.v9.map (fun m => ⟨m.penProvided, m.pen, m.type, destOf raw m⟩) ∧
+    c.cfg.ipfix = (lastPerKey raw.ipfix).map (fun m => ⟨m.penProvided, m.pen, m.type, destOf raw m⟩) ∧
+    c.cfg.v9 = (lastPerKey raw.v9).map (fun m => ⟨m.penProvided, m.pen, m.type, destOf raw m⟩) ∧
     c.cfg.layers = raw.layers.map (fun m => ⟨m.layer, m.encap, m.offset, m.length, destOf raw m⟩) ∧
     c.cfg.ports = portsOf raw ∧ c.cfg.present = true := by
   rw [((compile_ok_iff raw isSlice0 c).1 h).2]
@@ -564,15 +570,16 @@ theorem protoTypeOf_isSome_iff (t : String) : (protoTypeOf t).isSome = true ↔ 
 /-- the accepted files in the words of the documentation: every registered port names a parser of the table and a
     direction src / dst / both; every key field is a declared protobuf field or a documented column; every
     renderer id is registered; every listed field is a declared protobuf field, a documented column or a name with
-    a renderer (a virtual column such as `icmp_name`); every destination that names a declared protobuf field
-    finds its (last) declaration with type varint, string or bytes -/
+    a renderer (a virtual column such as `icmp_name`); every destination — of a layer statement, or of an element
+    statement that no later statement with the same key replaces (`mem_lastPerKey_iff`) — that names a declared
+    protobuf field finds its (last) declaration with type varint, string or bytes -/
 theorem accepted_iff (raw : RawConfig) :
     Accepted raw ↔
       (∀ p ∈ raw.ports, (parserByName p.parser).isSome = true ∧ (p.dir = "src" ∨ p.dir = "dst" ∨ p.dir = "both")) ∧
       (∀ k ∈ raw.key, k ∈ raw.protobuf.map (·.name) ∨ k ∈ defaultFields) ∧
       (∀ kv ∈ raw.render, ∃ f, rendererFunc kv.2 = some f) ∧
       (∀ f ∈ raw.fields, f ∈ raw.protobuf.map (·.name) ∨ f ∈ defaultFields ∨ ((renderOf raw).lookup f).isSome = true) ∧
-      (∀ m ∈ raw.ipfix ++ raw.v9 ++ raw.layers, ∀ p, declOf raw m.destination = some p →
+      (∀ m ∈ lastPerKey raw.ipfix ++ lastPerKey raw.v9 ++ raw.layers, ∀ p, declOf raw m.destination = some p →
         p.type = "varint" ∨ p.type = "string" ∨ p.type = "bytes") := by
   have hdest : ∀ (ms : List RawMap), (∀ m ∈ ms, destOK raw m.destination = true) ↔
       (∀ m ∈ ms, ∀ p, declOf raw m.destination = some p → p.type = "varint" ∨ p.type = "string" ∨ p.type = "bytes") := by
@@ -644,14 +651,143 @@ def rawKeyMatch (df : DataField) (e : RawMap) : Bool :=
 
 def compileEntry (raw : RawConfig) (m : RawMap) : NetflowMapEntry := ⟨m.penProvided, m.pen, m.type, destOf raw m⟩
 
+/-! ### `lastPerKey`: the statements left in the Go map -/
+
+theorem lastPerKey_sublist (ms : List RawMap) : (lastPerKey ms).Sublist ms := by
+  induction ms with
+  | nil => exact List.Sublist.slnil
+  | cons m ms ih =>
+    unfold lastPerKey
+    split
+    · exact ih.cons m
+    · exact ih.cons_cons m
+
+theorem lastPerKey_subset (ms : List RawMap) (m : RawMap) (h : m ∈ lastPerKey ms) : m ∈ ms :=
+  (lastPerKey_sublist ms).subset h
+
+/-- a statement survives iff no later statement of the list has its key -/
+theorem mem_lastPerKey_iff (ms : List RawMap) (m : RawMap) :
+    m ∈ lastPerKey ms ↔ ∃ a b, ms = a ++ m :: b ∧ ∀ x ∈ b, sameKey m x = false := by
+  induction ms with
+  | nil => simp [lastPerKey]
+  | cons x xs ih =>
+    unfold lastPerKey
+    by_cases hx : xs.any (sameKey x) = true
+    · rw [if_pos hx, ih]
+      constructor
+      · rintro ⟨a, b, rfl, hb⟩; exact ⟨x :: a, b, rfl, hb⟩
+      · rintro ⟨a, b, hab, hb⟩
+        cases a with
+        | nil =>
+          simp only [List.nil_append, List.cons.injEq] at hab
+          obtain ⟨rfl, rfl⟩ := hab
+          obtain ⟨y, hy, hxy⟩ := List.any_eq_true.1 hx
+          rw [hb y hy] at hxy; cases hxy
+        | cons a0 a =>
+          simp only [List.cons_append, List.cons.injEq] at hab
+          exact ⟨a, b, hab.2, hb⟩
+    · rw [if_neg hx, List.mem_cons, ih]
+      constructor
+      · rintro (rfl | ⟨a, b, rfl, hb⟩)
+        · refine ⟨[], xs, rfl, ?_⟩
+          intro y hy
+          cases hxy : sameKey m y with
+          | false => rfl
+          | true => exact absurd (List.any_eq_true.2 ⟨y, hy, hxy⟩) hx
+        · exact ⟨x :: a, b, rfl, hb⟩
+      · rintro ⟨a, b, hab, hb⟩
+        cases a with
+        | nil =>
+          simp only [List.nil_append, List.cons.injEq] at hab
+          exact Or.inl hab.1.symm
+        | cons a0 a =>
+          simp only [List.cons_append, List.cons.injEq] at hab
+          exact Or.inr ⟨a, b, hab.2, hb⟩
+
+/-- a list without repeated keys is left as it is -/
+theorem lastPerKey_of_distinct (ms : List RawMap) (h : ms.Pairwise (fun a b => sameKey a b = false)) : lastPerKey ms = ms := by
+  induction ms with
+  | nil => rfl
+  | cons m ms ih =>
+    obtain ⟨h1, h2⟩ := List.pairwise_cons.1 h
+    unfold lastPerKey
+    have : ms.any (sameKey m) = false := by
+      rw [List.any_eq_false]; intro x hx; simp [h1 x hx]
+    rw [this, ih h2]; rfl
+
+/-- the key of a data field, on statements -/
+def rawKey (pp : Bool) (pen type : Nat) (e : RawMap) : Bool := e.penProvided == pp && e.pen == pen && e.type == type
+
+theorem rawKey_of_sameKey {pp : Bool} {pen type : Nat} {a b : RawMap} (h : sameKey a b = true) :
+    rawKey pp pen type a = rawKey pp pen type b := by
+  simp only [sameKey, Bool.and_eq_true, beq_iff_eq] at h
+  obtain ⟨⟨h1, h2⟩, h3⟩ := h
+  simp [rawKey, h1, h2, h3]
+
+/-- of the statements with a given key, the last one is the same before and after the Go map dropped the
+    replaced ones -/
+theorem filter_lastPerKey_getLast? (ms : List RawMap) (pp : Bool) (pen type : Nat) :
+    ((lastPerKey ms).filter (rawKey pp pen type)).getLast? = (ms.filter (rawKey pp pen type)).getLast? := by
+  induction ms with
+  | nil => rfl
+  | cons m ms ih =>
+    unfold lastPerKey
+    by_cases hx : ms.any (sameKey m) = true
+    · rw [if_pos hx, ih, List.filter_cons]
+      by_cases hm : rawKey pp pen type m = true
+      · rw [if_pos hm]
+        obtain ⟨y, hy, hxy⟩ := List.any_eq_true.1 hx
+        have hyk : rawKey pp pen type y = true := by rw [← rawKey_of_sameKey hxy]; exact hm
+        have hmem : y ∈ ms.filter (rawKey pp pen type) := List.mem_filter.2 ⟨hy, hyk⟩
+        cases hf : ms.filter (rawKey pp pen type) with
+        | nil => rw [hf] at hmem; cases hmem
+        | cons z zs => rw [List.getLast?_cons_cons]
+      · rw [if_neg hm]
+    · rw [if_neg hx, List.filter_cons, List.filter_cons]
+      by_cases hm : rawKey pp pen type m = true
+      · rw [if_pos hm, if_pos hm, List.getLast?_cons, List.getLast?_cons, ih]
+      · rw [if_neg hm, if_neg hm, ih]
+
+theorem filter_map_compileEntry (raw : RawConfig) (ms : List RawMap) (pp : Bool) (pen type : Nat) :
+    (ms.map (compileEntry raw)).filter (keyMatch pp pen type) = (ms.filter (rawKey pp pen type)).map (compileEntry raw) := by
+  rw [List.filter_map]
+  rfl
+
+/-- **the lookup does not see the difference**: on the surviving statements it finds what it finds on all of them -/
+theorem lookupNetflow_lastPerKey (raw : RawConfig) (ms : List RawMap) (pp : Bool) (pen type : Nat) :
+    lookupNetflow ((lastPerKey ms).map (compileEntry raw)) pp pen type =
+      lookupNetflow (ms.map (compileEntry raw)) pp pen type := by
+  unfold lookupNetflow
+  change (match (((lastPerKey ms).map (compileEntry raw)).filter (keyMatch pp pen type)).getLast? with
+      | some e => some e.field | none => none) =
+    (match ((ms.map (compileEntry raw)).filter (keyMatch pp pen type)).getLast? with
+      | some e => some e.field | none => none)
+  rw [filter_map_compileEntry, filter_map_compileEntry, List.getLast?_map, List.getLast?_map, filter_lastPerKey_getLast?]
+
 theorem mapperOf_compiled (raw : RawConfig) (isSlice0 : List (String × Bool)) (c : Compiled)
     (h : compile raw isSlice0 = .ok c) (version : Nat) :
-    mapperOf c.cfg version = (rawMapper raw version).map (compileEntry raw) := by
+    mapperOf c.cfg version = (lastPerKey (rawMapper raw version)).map (compileEntry raw) := by
   obtain ⟨h1, h2, _⟩ := compile_netflow_entries raw isSlice0 c h
   unfold mapperOf rawMapper
   split
   · rw [h1]; rfl
   · rw [h2]; rfl
+
+/-- the compiled mapper answers every lookup as the complete statement list of the file would -/
+theorem lookup_compiled (raw : RawConfig) (isSlice0 : List (String × Bool)) (c : Compiled)
+    (h : compile raw isSlice0 = .ok c) (version : Nat) (pp : Bool) (pen type : Nat) :
+    lookupNetflow (mapperOf c.cfg version) pp pen type =
+      lookupNetflow ((rawMapper raw version).map (compileEntry raw)) pp pen type := by
+  rw [mapperOf_compiled raw isSlice0 c h, lookupNetflow_lastPerKey]
+
+/-- files without repeated element keys (the usual case): every statement is compiled, in file order -/
+theorem compile_netflow_entries_distinct (raw : RawConfig) (isSlice0 : List (String × Bool)) (c : Compiled)
+    (h : compile raw isSlice0 = .ok c)
+    (h10 : raw.ipfix.Pairwise (fun a b => sameKey a b = false)) (h9 : raw.v9.Pairwise (fun a b => sameKey a b = false)) :
+    c.cfg.ipfix = raw.ipfix.map (compileEntry raw) ∧ c.cfg.v9 = raw.v9.map (compileEntry raw) := by
+  obtain ⟨h1, h2, _⟩ := compile_netflow_entries raw isSlice0 c h
+  rw [h1, h2, lastPerKey_of_distinct _ h10, lastPerKey_of_distinct _ h9]
+  exact ⟨rfl, rfl⟩
 
 /-- **which statement wins**: of the statements of the version's list whose key is the field's, the LAST one in
     file order (the Go map is filled in file order, a later statement with the same key replaces the earlier one) -/
@@ -660,7 +796,7 @@ theorem file_lookup_last (raw : RawConfig) (isSlice0 : List (String × Bool)) (c
     (hfile : rawMapper raw version = a ++ e :: b) (he : rawKeyMatch df e = true)
     (hb : ∀ e' ∈ b, rawKeyMatch df e' = false) :
     lookupNetflow (mapperOf c.cfg version) df.penProvided df.pen df.type = some (destOf raw e) := by
-  rw [mapperOf_compiled raw isSlice0 c h, hfile, List.map_append, List.map_cons]
+  rw [lookup_compiled raw isSlice0 c h, hfile, List.map_append, List.map_cons]
   refine lookupNetflow_last _ _ (compileEntry raw e) _ _ _ he ?_
   intro e' he'
   obtain ⟨r, hr, rfl⟩ := List.mem_map.1 he'
@@ -671,7 +807,7 @@ theorem file_lookup_none (raw : RawConfig) (isSlice0 : List (String × Bool)) (c
     (h : compile raw isSlice0 = .ok c) (version : Nat) (df : DataField)
     (hno : ∀ e ∈ rawMapper raw version, rawKeyMatch df e = false) :
     lookupNetflow (mapperOf c.cfg version) df.penProvided df.pen df.type = none := by
-  rw [mapperOf_compiled raw isSlice0 c h, lookupNetflow_none_iff]
+  rw [lookup_compiled raw isSlice0 c h, lookupNetflow_none_iff]
   intro e' he'
   obtain ⟨r, hr, rfl⟩ := List.mem_map.1 he'
   exact hno r hr
@@ -777,10 +913,9 @@ theorem raw_accepted : Accepted raw := by decide
 
 example : ∃ c, compile raw initialIsSlice = .ok c := (compile_accepts_iff raw initialIsSlice).2 raw_accepted
 
-/-- the compiled mappers -/
+/-- the compiled mappers: of the two statements for element 400 only the last one is in the Go map -/
 example : (cfgOf raw).ipfix =
     [⟨true, 9, 100, ⟨"flowid", true, 1002, .varint, false⟩⟩,
-     ⟨false, 0, 400, ⟨"InIf", false, 0, .none, false⟩⟩,
      ⟨false, 0, 400, ⟨"vendor_str", false, 1001, .string, true⟩⟩,
      ⟨false, 0, 401, ⟨"OutIf", false, 0, .none, false⟩⟩,
      ⟨false, 0, 402, ⟨"nowhere", false, 0, .none, false⟩⟩] := by decide
@@ -844,16 +979,33 @@ example (c : Compiled) (h : compile raw initialIsSlice = .ok c) (m : FlowMsg) :
     C14Map.customStep (C14Map.mapperOf c.cfg 10) ⟨true, 100, 10, some [1]⟩ [1] m = .ok m :=
   (file_element_unmapped raw initialIsSlice c h 10 0 0 ⟨true, 100, 10, some [1]⟩ [] [1] rfl m (by decide)).1
 
-/-- where the model is stricter than the Go loader: the model finalizes every statement, the Go code only the
-    entries left in its map — a statement naming a field of illegal type is not noticed by `finalizeNetFlowMapper`
-    when a later statement with the same (penprovided, pen, field) key replaced it. The model rejects this file,
-    the Go loader accepts it (and rejects it with the two statements swapped). -/
+/-- a statement replaced by a later one with the same (penprovided, pen, field) key is not in the Go map when
+    `finalizeNetFlowMapper` runs: its destination of illegal type cannot make the loader fail, and the element
+    goes to the destination of the later statement … -/
 def shadowed : RawConfig :=
   { protobuf := [⟨"bad", 1000, "float", false⟩, ⟨"good", 1001, "varint", false⟩],
     ipfix := [{ type := 400, destination := "bad" }, { type := 400, destination := "good" }] }
 
-example : ¬ Accepted shadowed := by decide
-example : compile shadowed initialIsSlice = .error () := (compile_rejects_iff _ _).2 (by decide)
+theorem shadowed_accepted : Accepted shadowed := by decide
+example : ∃ c, compile shadowed initialIsSlice = .ok c := (compile_accepts_iff _ _).2 shadowed_accepted
+example : (cfgOf shadowed).ipfix = [⟨false, 0, 400, ⟨"good", false, 1001, .varint, false⟩⟩] := by decide
+
+/-- … with the two statements swapped the surviving one is the illegal one: rejected -/
+def shadowedSwapped : RawConfig :=
+  { shadowed with ipfix := [{ type := 400, destination := "good" }, { type := 400, destination := "bad" }] }
+
+example : ¬ Accepted shadowedSwapped := by decide
+example : compile shadowedSwapped initialIsSlice = .error () := (compile_rejects_iff _ _).2 (by decide)
+
+/-- the same for NetFlow v9; statements with different keys are all finalized; layer statements are kept in a
+    list per layer, so every one of them is finalized whatever follows -/
+example : Accepted { shadowed with ipfix := [], v9 := shadowed.ipfix } := by decide
+example : ¬ Accepted { shadowed with ipfix := [], v9 := shadowedSwapped.ipfix } := by decide
+example : ¬ Accepted { shadowed with ipfix := [{ type := 400, destination := "bad" }, { type := 401, destination := "good" }] } := by decide
+example : ¬ Accepted { shadowed with ipfix := [{ penProvided := true, pen := 9, type := 400, destination := "bad" },
+    { type := 400, destination := "good" }] } := by decide
+example : ¬ Accepted { shadowed with ipfix := [], layers := [{ layer := "udp", length := 8, destination := "bad" },
+    { layer := "udp", length := 8, destination := "good" }] } := by decide
 
 end Example
 
